@@ -14,7 +14,10 @@ LEVEL_TEXT = ("TLC enumerates every (size 1..7, source <= 5, destination prefix 
               "by the same TLC operators from a file: every ordered pair of byte values 1..255 at every offset mod 8 in buffers of 9..24 bytes, "
               "size sweeps n-1, n, n+1 for n = 8..1024 (and every length 120..160, 248..272; thorough 56..300) at all 8 start alignments, copies "
               "and slices at sizes up to 4096, every byte value as first / inner / last byte; each call after an adversarial prelude at the same "
-              "address (different content, errno preset).")
+              "address (different content, errno preset). "
+              "Every case is executed at each run-time debug level of the specification's DebugLevels (0, 1, 3, 5) with identical results required; "
+              "extreme integer arguments (INT_MAX, INT_MAX-k, INT_MIN, INT_MIN+k, 2^30, 2^15/2^16 neighbours) of substr and of the declared copy size "
+              "are crossed with small non-zero values of the other parameters.")
 LEVEL_NOTE = ("Exhaustive only within those bounds and alphabets. safe_strncat with a destination that holds no NUL within size bytes is run "
               "for memory safety only (value not claimed); safe_str is claimed for n <= strlen. condense_whitespace keeping one leading blank "
               "is taken as the as-built convention. Memory safety = no ASan report and intact guard zones on what was executed. Trusted: TLC, "
